@@ -651,6 +651,58 @@ def stage_aborted_call(ctx, stats):
     stats['aborted_call_sessions'] = n
 
 
+def stage_two_objects(ctx, stats):
+    """C07 / C08 with two live objects of the same encoding and error policy whose reads and sends interleave: a character cut by a read
+    of one object is completed by that object's next read whatever the other one reads in between, and what one object sent (a byte
+    order mark, a shift state) is not what the other one has sent"""
+    from pexpect import fdpexpect
+    n = 0
+    for enc, errors in (('utf-8', 'strict'), ('utf-8', 'replace'), ('utf-8', 'ignore'), ('utf-16', 'strict'), ('shift_jis', 'strict')):
+        ta, tb, ch = 'caf\u30bd \u8868!', 'x\u80fdy', '\u30bd'
+        if enc != 'shift_jis':
+            ta, tb, ch = 'caf\u00e9 \u20ac!', 'x\U0001f600y', '\u00e9'
+        ra, rb = ta.encode(enc), tb.encode(enc)
+        for cut_a in range(1, len(ra)):
+            for cut_b in (1, len(rb) - 2):
+                pa, pb = os.pipe(), os.pipe()
+                wa, wb = os.pipe(), os.pipe()          # where each object's sends go
+                A = fdpexpect.fdspawn(pa[0], encoding=enc, codec_errors=errors, timeout=2)
+                B = fdpexpect.fdspawn(pb[0], encoding=enc, codec_errors=errors, timeout=2)
+                msg = None
+                try:
+                    got_a = got_b = ''
+                    os.write(pa[1], ra[:cut_a]); got_a += A.read_nonblocking(100, 1)
+                    os.write(pb[1], rb[:cut_b]); got_b += B.read_nonblocking(100, 1)
+                    os.write(pa[1], ra[cut_a:]); got_a += A.read_nonblocking(100, 1)
+                    os.write(pb[1], rb[cut_b:]); got_b += B.read_nonblocking(100, 1)
+                    if (got_a, got_b) != (ta, tb):
+                        msg = 'A delivered %r (its stream: %r), B delivered %r (its stream: %r)' % (got_a, ta, got_b, tb)
+                    else:
+                        A.child_fd, B.child_fd = wa[1], wb[1]
+                        A.send('a' + ch); B.send('b'); A.send('c'); B.send(ch)
+                        sa, sb = os.read(wa[0], 100), os.read(wb[0], 100)
+                        if (sa, sb) != (('a' + ch + 'c').encode(enc), ('b' + ch).encode(enc)):
+                            msg = "A's peer received %r (sent: %r), B's peer received %r (sent: %r)" % (sa, ('a' + ch + 'c').encode(enc), sb, ('b' + ch).encode(enc))
+                        A.child_fd, B.child_fd = pa[0], pb[0]
+                except Exception as e:      # noqa
+                    msg = 'raised %s: %s' % (type(e).__name__, str(e)[:80])
+                finally:
+                    for fd in pa + pb + wa + wb:
+                        try:
+                            os.close(fd)
+                        except OSError:
+                            pass
+                    A.closed = B.closed = True
+                    A.child_fd = B.child_fd = -1
+                n += 1
+                if msg:
+                    common.report(ctx, 'c07/two-objects/%s' % enc, 'two fdspawn objects (%s/%s) used in turn, the first read of A ends after byte %d, of B after byte %d: %s' % (
+                        enc, errors, cut_a, cut_b, msg), dict(encoding=enc, errors=errors, cut_a=cut_a, cut_b=cut_b, how='harness/props/session_family.py stage_two_objects'))
+                    stats['two_object_cases'] = n
+                    return
+    stats['two_object_cases'] = n
+
+
 def stage_growing_file(ctx, stats):
     """C07 on a descriptor that reports the end of the stream at its momentary end and delivers more later (a file that is still being
     written): a character cut at such a point is completed by what follows, like at any other read boundary"""
@@ -1067,6 +1119,7 @@ def run(ctx):
     sigs = set()
     if prop == 'C08':
         stage_big_sends(ctx, stats)
+        stage_two_objects(ctx, stats)
         stage_popen_short_writes(ctx, stats)
         stage_descendant_reader(ctx, stats)
     if prop == 'C11':
@@ -1102,6 +1155,7 @@ def run(ctx):
         stage_handover(ctx, stats)
         stage_aborted_call(ctx, stats)
         stage_growing_file(ctx, stats)
+        stage_two_objects(ctx, stats)
     if prop == 'C11':
         stage_interact_logging(ctx, stats)
         stage_handover(ctx, stats)
